@@ -7,8 +7,9 @@ from core import coqrun
 
 ID = 'C13'
 PROPERTY_FILE = 'C13/Property.v'
+PROPERTY_FILES = ['C13/Property.v', 'C13/QuatProperty.v']
 LEVEL = 'proof'
-ALLOWED_AXIOMS = ()
+ALLOWED_AXIOMS = {'C13/Property.v': (), 'C13/QuatProperty.v': coqrun.REAL_AXIOMS}
 TRUSTED_BASE = [
     'C13/Model.v is hand-written from cflib/utils/encoding.py and led_driver_memory.py; tied by exhaustive '
     'differential evaluation on every run (all fp16 patterns, all level x intensity pairs per LED channel)',
@@ -224,6 +225,9 @@ def oracle_fp16_led(ctx, deep=False):
 
 def replay(payload, ctx):
     c = payload['case']
+    if c.get('fn') == 'quaternion':
+        from props import c13_quat
+        return c13_quat.replay_quat(payload, ctx)
     if c.get('fn') in _REPLAYERS:
         return _REPLAYERS[c['fn']](c)
     if c.get('fn') == 'fp16_to_float':
@@ -599,10 +603,12 @@ def _merge(a, b):
 
 
 def tie(ctx):
-    r = _merge(tie_fp16_led(ctx), tie_streams(ctx))
+    from props import c13_quat
+    r = _merge(_merge(tie_fp16_led(ctx), tie_streams(ctx)), c13_quat.tie_quat(ctx))
     r['exhaustive_parts'] = ['fp16 (all patterns)', 'LED level x intensity per channel']
     return r
 
 
 def oracle(ctx, deep=False):
-    return _merge(oracle_fp16_led(ctx, deep), oracle_streams(ctx, deep))
+    from props import c13_quat
+    return _merge(_merge(oracle_fp16_led(ctx, deep), oracle_streams(ctx, deep)), c13_quat.oracle_quat(ctx, deep))
